@@ -26,7 +26,7 @@ import vlib
 
 AREA = "relay"
 HARNESS = ["zz_verif_relay_test.go"]
-NREP = 12                 # re-executions of a rejected script
+NREP = 40                 # re-executions of a rejected script (racy defects need the schedule again)
 COMPLETE_TIMEOUT_MS = 120000   # "complete": must exceed the per-call watchdog, so that a relay that
 WATCHDOG_MS = 30000            # waits for a consumer nobody serves is seen as blocked, not as slow
 
@@ -223,6 +223,19 @@ def gen_scripts(ctx, p, n, tag):
 def decorate(script, rnd, mode, p=None):
     """Scheduling the model leaves open: does the dispatcher wait for a call to return before it
     starts the next one, or how long does it pause; where the complete configuration quiesces."""
+    script = list(script)
+    if p:
+        # two requests of a non-Sync writer back to back (both in flight inside the writer at once)
+        nosync = {w["id"] for w in p["writers"] if not w["sync"]}
+        i = 0
+        while i < len(script):
+            o = script[i]
+            if o["a"] == "write" and o["p"] in nosync and rnd.random() < 0.5:
+                later = [j for j in range(i + 1, len(script)) if script[j]["a"] == "write" and script[j]["p"] == o["p"]]
+                if later:
+                    script.insert(i + 1, script.pop(later[0]))
+                    i += 1
+            i += 1
     ops = []
     fence_next = False
     for o in script:
@@ -585,7 +598,13 @@ def one_config(ctx, p, mode, scripts, rnd, tag, race, cov):
         cov["samples"].append({"config": "%s/%s" % (p["name"], mode), "script": [
             "%s(%s%s)" % (o["a"], o["p"], (":" + "+".join(o["ks"])) if o["ks"] else "") for o in scn["script"]],
             "events": len(evs)})
-    handle_rejections(ctx, p, mode, rejected, race)
+    # how many scenarios of this configuration show each class (the log-level oracle needs no TLC)
+    seen_classes = {}
+    for scn, evs in items:
+        c = classify(p, mode, evs, len(evs) - 1)[0]
+        if c:
+            seen_classes[c] = seen_classes.get(c, 0) + 1
+    handle_rejections(ctx, p, mode, rejected, race, seen_classes)
 
 
 def rerun(ctx, p, mode, scn, n, tag, race):
@@ -593,7 +612,7 @@ def rerun(ctx, p, mode, scn, n, tag, race):
     return run_harness(ctx, p, mode, scs, tag, race=race, workers=2)
 
 
-def handle_rejections(ctx, p, mode, rejected, race):
+def handle_rejections(ctx, p, mode, rejected, race, seen_classes=None):
     """Rejected traces whose events contradict a clause of the statement (classify) are re-executed
     and reported when the contradiction shows again; rejections that contradict only what Relay.tla
     pins beyond the statement (e.g. the moment a re-subscription takes effect) are drift."""
@@ -613,11 +632,15 @@ def handle_rejections(ctx, p, mode, rejected, race):
         if done.get(cls, 0) >= 2 or any(v[0] == "C20 %s %s" % (mode, cls) for v in ctx.violations) or len(ctx.violations) >= 2:
             continue
         done[cls] = done.get(cls, 0) + 1
-        # reproduce: same script from scratch, several times (a racy defect needs the schedule again)
-        res = rerun(ctx, p, mode, scn, NREP, "repro", race)
-        items = [(scn, r["events"]) for r in res.values() if r["status"] == "ok"]
-        # the statement-level oracle alone decides most classes from the log; TLC only where it does not
-        hits = sum(1 for it in items if classify(p, mode, it[1], len(it[1]) - 1)[0] == cls)
+        # reproduced = the same contradiction in a second, independent scenario of this run, or in a
+        # re-execution of the same script from scratch (a racy defect needs the schedule again)
+        hits = 1 if (seen_classes or {}).get(cls, 0) >= 2 else 0
+        items = []
+        if not hits:
+            res = rerun(ctx, p, mode, scn, NREP, "repro", race)
+            items = [(scn, r["events"]) for r in res.values() if r["status"] == "ok"]
+            # the statement-level oracle alone decides most classes from the log; TLC only where it does not
+            hits = sum(1 for it in items if classify(p, mode, it[1], len(it[1]) - 1)[0] == cls)
         for k, it in enumerate(items if not hits else []):
             st, bad = tlc_trace(ctx, p, mode, [it], "repro_%d" % k, timeout=1800)
             if bad and classify(p, mode, it[1], bad[1])[0] == cls:
